@@ -25,6 +25,13 @@ UNITS = {
 }
 
 KANI_GROUPS = {
+    "action": dict(
+        src="kani/action.rs", append_to="src/core/action.rs", module="core::action::verif_action",
+        harnesses=[dict(name=n, kind="complete", timeout=t, tier=tier) for (n, t, tier) in [
+            ("vk_action_from_i8", 120, "quick"), ("vk_action_from_f64_total", 300, "quick"), ("vk_action_from_f32_total", 300, "quick"),
+            ("vk_action_from_f64_monotone", 600, "thorough"), ("vk_action_ratio_roundtrip", 300, "quick"), ("vk_action_neg", 120, "quick"),
+            ("vk_action_sub", 300, "quick"), ("vk_action_eq_equivalence", 300, "quick"), ("vk_action_ord_consistent", 120, "quick"), ("vk_action_ord_consistent_guarded", 120, "quick"),
+            ("vk_action_ord_total_order", 300, "quick")]]),
     "window": dict(
         src="kani/window.rs", append_to="src/core/window.rs", module="core::window::verif_window",
         harnesses=[
@@ -70,6 +77,14 @@ PROPS["C03"] = dict(
            "Vidya with the CMO of the window of changes; TR; HeikinAshi; cumulative Integral/ADI), new establishes the seed the documentation "
            "prescribes; 'applied to the whole stream' is induction over that step, which holds for every state satisfying the invariant."),
     assumptions=[REALS, "dyn OHLCV inputs are modelled by an opaque candle with five uninterpreted pure accessors (R10)"],
+)
+
+PROPS["C16"] = dict(
+    kani=["action"],
+    claim=("Every clause is a loop-free Kani harness over the full input domain (all 513 actions, all pairs/triples, every i8, every f32 and "
+           "f64 bit pattern as symbolic values), so each passing harness is a complete bit-precise proof, not a bounded check."),
+    assumptions=["IEEE-754 semantics of CBMC's float theory (round-to-nearest-even) match the target's"],
+    technique="Kani/CBMC loop-free harnesses over full symbolic domains on the real functions (complete, bit-precise)",
 )
 
 NOT_BUILT = {}
